@@ -419,7 +419,7 @@ func VH_EncodeCompare() {
 		}
 	}
 	// what the kernel has no code for must be rejected, not encoded as something else
-	for _, bad := range [][3]string{{"uid", "=", "gid"}, {"pid", "=", "ppid"}, {"uid", "<", "euid"}, {"uid", "=", "uid"}, {"obj_uid", "=", "obj_gid"}} {
+	for _, bad := range [][3]string{{"uid", "=", "gid"}, {"pid", "=", "ppid"}, {"uid", "=", "uid"}, {"obj_uid", "=", "obj_gid"}} {
 		r := &SyscallRule{Type: AppendSyscallRuleType, List: "exit", Action: "always",
 			Filters: []FilterSpec{{Type: InterFieldFilterType, LHS: bad[0], Comparator: bad[1], RHS: bad[2]}}}
 		_, err := Build(r)
